@@ -16,10 +16,10 @@ PARTS = {
     'quick': [
       C('cmp-values', 'base', 'dom=all', 'grid=small'),
       C('cmp-int-asan', 'asan', 'dom=int', 'grid=small'),
-      C('cmp-values-asan', 'asan', 'dom=float,string,type,rawall', 'grid=small'),
+      C('cmp-values-asan', 'asan', 'dom=float,string,type,rawall,recycled', 'grid=small'),
     ],
     'thorough': [
-      C('cmp-int-float-type', 'base', 'dom=int,float,type', 'grid=large'),
+      C('cmp-int-float-type', 'base', 'dom=int,float,type,recycled', 'grid=large'),
       C('cmp-string4', 'base', 'dom=string', 'grid=large'),
       C('cmp-raw256', 'base', 'dom=raw', 'grid=large'),
       C('cmp-rawsizes-a', 'base', 'dom=raw1,raw3,raw4,raw7,raw9', 'grid=large'),
@@ -27,7 +27,7 @@ PARTS = {
       C('cmp-rawsizes-c', 'base', 'dom=raw20,raw21', 'grid=large'),
       C('cmp-rawbig', 'base', 'dom=rawbig', 'grid=large'),
       C('cmp-int-asan', 'asan', 'dom=int', 'grid=large'),
-      C('cmp-float-type-asan', 'asan', 'dom=float,type', 'grid=large'),
+      C('cmp-float-type-asan', 'asan', 'dom=float,type,recycled', 'grid=large'),
       C('cmp-string4-asan', 'asan', 'dom=string', 'grid=large'),
       C('cmp-raw256-asan', 'asan', 'dom=raw', 'grid=large'),
       C('cmp-rawsizes-a-asan', 'asan', 'dom=raw1,raw3,raw4,raw7,raw9', 'grid=large'),
@@ -39,17 +39,17 @@ PARTS = {
   'C10': {
     'quick': [
       X('hash-values', 'base', 'part=all', 'grid=small'),
-      X('hash-int-asan', 'asan', 'part=values,pairs,ops', 'dom=int', 'grid=small'),
-      X('hash-others-asan', 'asan', 'part=all', 'dom=float,string,rawall,ref,box,type', 'grid=small'),
+      X('hash-int-asan', 'asan', 'part=values,pairs,ops,containers', 'dom=int', 'grid=small'),
+      X('hash-others-asan', 'asan', 'part=all', 'dom=float,string,rawall,ref,box,type,recycled', 'grid=small'),
     ],
     'thorough': [
-      X('hash-values', 'base', 'part=all', 'dom=int,float,string,raw,ref,box,type', 'grid=large'),
-      X('hash-rawsizes', 'base', 'part=values,pairs,ops', 'dom=raw1,raw3,raw4,raw7,raw9,raw12,raw16,raw20,raw21', 'grid=large'),
-      X('hash-rawbig', 'base', 'part=values,pairs,ops', 'dom=rawbig', 'grid=large'),
-      X('hash-int-asan', 'asan', 'part=values,pairs,ops', 'dom=int', 'grid=large'),
-      X('hash-others-asan', 'asan', 'part=all', 'dom=float,string,raw,ref,box,type', 'grid=large'),
-      X('hash-rawbig-asan', 'asan', 'part=values,pairs,ops', 'dom=rawbig', 'grid=large'),
-      X('hash-rawsizes-asan', 'asan', 'part=values,pairs,ops', 'dom=raw1,raw3,raw4,raw7,raw9,raw12,raw16,raw20,raw21', 'grid=large'),
+      X('hash-values', 'base', 'part=all', 'dom=int,float,string,raw,ref,box,type,recycled', 'grid=large'),
+      X('hash-rawsizes', 'base', 'part=values,pairs,ops,containers', 'dom=raw1,raw3,raw4,raw7,raw9,raw12,raw16,raw20,raw21', 'grid=large'),
+      X('hash-rawbig', 'base', 'part=values,pairs,ops,containers', 'dom=rawbig', 'grid=large'),
+      X('hash-int-asan', 'asan', 'part=values,pairs,ops,containers', 'dom=int', 'grid=large'),
+      X('hash-others-asan', 'asan', 'part=all', 'dom=float,string,raw,ref,box,type,recycled', 'grid=large'),
+      X('hash-rawbig-asan', 'asan', 'part=values,pairs,ops,containers', 'dom=rawbig', 'grid=large'),
+      X('hash-rawsizes-asan', 'asan', 'part=values,pairs,ops,containers', 'dom=raw1,raw3,raw4,raw7,raw9,raw12,raw16,raw20,raw21', 'grid=large'),
     ],
   },
 }
@@ -59,9 +59,12 @@ RULES = {
           'distinct_nontrivial = pairs of different values with a boundary feature (Int difference outside int32 or overflowing int64; Float pair '
           'involving a zero, a denormal or an infinity; String pair where one is a prefix of the other or the first differing byte is >= 0x80; '
           'Type names sharing a prefix; struct pair (sizes 1,3,4,7,8,9,12,16,20,21 and 63,64,65,72,100,127,128,129,200,300 bytes) whose first differing byte is >= 0x80 or is the last byte) + triples that form a strict chain a<b<c or a>b>c in the '
-          'reference order (transitivity premise holds) + completed Tree/Table insert/lookup/iterate/remove histories over the grid'),
+          'reference order (transitivity premise holds) + completed Tree/Table insert/lookup/iterate/remove histories over the grid + generations of a run-time record type '
+          '(sizes cycling 8,32,16,64,4,24,12,100, first operation cmp / eq / gt) that came back at the address of the deleted previous type with another size'),
   'C10': ('value-type grids (h_hash.c): distinct_nontrivial = (value, allocation class / operation) cases in which the object under test is a '
           'different object from the stack witness (heap, root, Array/List element, Table/Tree key and value, copy, assign into fresh / into an '
           'object holding another value, both sides of swap on heap / stack / Array-embedded objects (guard elements and canary zones must keep every byte), Array element against stack object, Array sort of the whole grid; plain structs of 1,3,4,7,8,9,12,16,20,21 bytes exercise every tail length of the default memcmp/hash_data/memcpy/memswap, structs of 63,64,65,72,100,127,128,129,200,300 bytes every remainder of a 64/128-byte block-wise copy) + pairs of different representations of equal values (signed zeros, Type twins) + '
-          'hash_data cases with a tail (len % 8 != 0) or a misaligned start'),
+          'hash_data cases with a tail (len % 8 != 0) or a misaligned start + container cases (Array / List / heap and stack Tuple / Array and List built through another history '
+          'holding the same 1..3 elements: each eq pair of containers, each copy, List := Array and Array := List) + recycled run-time type generations at the '
+          'address of the deleted previous type (first operation hash / assign / swap / copy)'),
 }
